@@ -73,10 +73,10 @@ def build_specs():
     specs['dispatch'] = {'init': 'START', 'START': b0 + [Row('END', None, 'finish')], 'B': b + [Row('END', None, 'finish')]}
     # ---- A.3 -u-
     attrs = [Row('attribute', uattr, 'consume', slot='list', role='uattr', next='ATTRS'), Row('key', ukey, 'consume', slot='K', role='ukey', next='KEY'),
-             Row('singleton', LEN1, 'yield'), Row('two characters, not a key', LEN2.minus(ukey), 'reject'), Row('empty subtag', EMPTY, 'either')]
+             Row('singleton', LEN1, 'yield'), Row('two characters, not a key', LEN2.minus(ukey), 'defer'), Row('empty subtag', EMPTY, 'either')]
     key = [Row('type', utype.minus(TRUE), 'consume', slot='V', role='utype', next='KEY'), Row("type 'true'", TRUE, 'skip', next='KEY'),
            Row('key', ukey, 'consume', slot='K', role='ukey', next='KEY', flush=True), Row('singleton', LEN1, 'yield', flush=True),
-           Row('two characters, not a key', LEN2.minus(ukey), 'reject'), Row('empty subtag', EMPTY, 'either')]
+           Row('two characters, not a key', LEN2.minus(ukey), 'defer'), Row('empty subtag', EMPTY, 'either')]
     specs['unicode'] = {'init': 'ATTRS', 'pending': {'KEY'},
                         'ATTRS': attrs + [Row('malformed subtag', rest(attrs), 'defer'), Row('END', None, 'yield')],
                         'KEY': key + [Row('malformed subtag', rest(key), 'defer', flush=True), Row('END', None, 'yield', flush=True)]}
@@ -154,6 +154,16 @@ class Slots:
             from . import mutators as mu
             mu.find_struct_values(v, full, vals)
             for sv in vals:
+                # a loop-carried cell (l, i) that is field i of the returned struct identifies the struct local l, even when the other fields were
+                # never written inside a loop and hang off no cell
+                cands = set(k[0] for i, fv in enumerate(sv[3]) for k in root_keys(fv) if len(k) >= 2 and k[1] == i)
+                if len(cands) == 1 and len(sv[3]) > 1:
+                    l = next(iter(cands))
+                    self.result_local = l
+                    for i in range(len(sv[3])):
+                        name = field_slot_name(fields[i]) if i < len(fields) else None
+                        if name is not None:
+                            self.field_slot[(l, i)] = name
                 for i, fv in enumerate(sv[3]):
                     name = field_slot_name(fields[i]) if i < len(fields) else None
                     if name is None:
@@ -190,6 +200,25 @@ class Slots:
                         self.by_key[k] = 'K'
                     for k in root_keys(val[1][1]):
                         self.by_key[k] = 'V'
+                    # a key held in a plain local of the enclosing iteration (nested loops: `let key = parse_key(..)?; <inner loop>; map.insert(key, values)`):
+                        # the local that received exactly the inserted value is the key slot
+                    for st2 in pa.steps:
+                        for sink2, val2, tok2, xf2, sp2 in st2.stores:
+                            if sink2 and sink2[0] == 'L' and len(sink2) == 3 and not sink2[2] and val2 == val[1][0] and tok2 is not None:
+                                self.by_local.setdefault(sink2[1], 'K')
+        # a collection moved out of a loop-carried cell into a plain local, extended there and moved back (`State::Field(key, mut values) => {
+        # values.push(v); State::Field(key, values) }`): the local stands for the cell its value comes from
+        self.alias = {}
+        for st in pa.steps:
+            fr = st.seg.state.frames.get(1, {}) if hasattr(st.seg.state, 'frames') else {}
+            for sink, val, tok, xf, sp in st.stores:
+                if sink and sink[0] == 'L' and len(sink) > 3 and not sink[2] and sink[1] not in self.alias:
+                    v = fr.get(sink[1])
+                    ks = root_keys(v) if isinstance(v, tuple) and v else set()
+                    if len(ks) == 1:
+                        k = next(iter(ks))
+                        if k[0] != sink[1]:
+                            self.alias[sink[1]] = k
         # cells that are whole locals also answer by local
         for k, name in list(self.by_key.items()):
             if len(k) == 1 or all(isinstance(x, int) and x == 0 for x in k[1:]) and not [k2 for k2 in self.by_key if k2 != k and k2[0] == k[0]]:
@@ -199,6 +228,9 @@ class Slots:
         if sink is None or sink[0] != 'L':
             return None
         l, path = sink[1], sink[2]
+        if not path and l in getattr(self, 'alias', {}) and l not in self.by_local:
+            k = self.alias[l]
+            return self.slot_of_sink(('L', k[0], tuple(k[1:])) + tuple(sink[3:]))
         if path and (l, path[0]) in self.field_slot:
             return self.field_slot[(l, path[0])]
         # cells inside a local (payload of an Option, field of a tuple): the longest compatible cell names the slot, if unambiguous
@@ -269,6 +301,28 @@ class TableCheck:
         self.rows_hit = set()
         self.nsteps = 0
 
+    # a specification state with a trailing '~' is the same state after the pending key and its values have already been stored (a parser
+    # written as nested loops stores them when the inner loop over the values ends, before it looks at the next subtag as a key)
+    @staticmethod
+    def base(q):
+        return q.rstrip('~') if isinstance(q, str) else q
+
+    def is_pending(self, q):
+        return self.base(q) in self.spec.get('pending', ()) and not str(q).endswith('~')
+
+    def defer(self, st, tok, q, work):
+        """the examined subtag is neither consumed nor stored and the segment goes on to another loop: the same element is under the cursor
+        when the next segment starts (with what this path has learned about it) and is judged there.  A key/values pair inserted on the way is
+        the flush of the pending key."""
+        flushes = [1 for sink, val, t2, xf, _ in st.stores if sink and len(sink) > 3 and sink[3] == 'insert' and normalise_map_slot(self.slots.slot_of_sink(sink)) == 'map']
+        nq = q
+        if flushes:
+            if self.is_pending(q):
+                nq = q + '~'
+            else:
+                self.add('PARSE-FLUSH', self.base(q), '-', 'a key/values pair is inserted although no key is pending in state %s' % self.base(q))
+        work.append((st.end[1], nq))
+
     def add(self, rule, state, row, msg, witness=None, span=None):
         self.viol.setdefault(rule, {}).setdefault((state, row, msg), (witness, span))
 
@@ -317,6 +371,10 @@ class TableCheck:
                     self.run_multi(st, known, 0, q, work)
                     continue
                 tok = self.examined(st)
+                if tok is not None and not tok.consumed and st.end[0] == 'head' and not st.subcalls and not [x for x in st.stores if x[2] is tok] \
+                        and (node[0] != 'head' or st.end[1][1] != node[1]):
+                    self.defer(st, tok, q, work)
+                    continue
                 if tok is None:
                     # no token examined in this segment (set-up before the loop): nothing may be stored from the stream
                     if st.end[0] == 'head':
@@ -324,7 +382,7 @@ class TableCheck:
                     elif st.end[0] == 'panic':
                         self.add('PARSE-TABLE', q, '-', 'a panic is reachable')
                     continue
-                rows = self.spec[q]
+                rows = self.spec[self.base(q)]
                 if tok.present == 'neg':
                     for r in rows:
                         if r.name == 'END':
@@ -368,9 +426,9 @@ class TableCheck:
         if last and not tok.consumed and st.end[0] == 'head' and not [x for x in st.stores if x[2] is tok]:
             # examined (its class narrowed by the tests that failed), neither consumed nor stored: the same element is under the cursor when the
             # next segment starts, with what this path has learned about it (PX carries the cursor element across the cut) - judged there
-            work.append((st.end[1], q))
+            self.defer(st, tok, q, work)
             return
-        rows = self.spec[q]
+        rows = self.spec[self.base(q)]
         if tok.present == 'neg':
             for r in rows:
                 if r.name == 'END':
@@ -400,6 +458,7 @@ class TableCheck:
 
     # ---- one step against one row
     def check_row(self, st, tok, q, r, inter):
+        qfull, q = q, self.base(q)
         self.rows_hit.add((q, r.name))
         e = self.pa.e
         w = repr(inter.example()) if inter is not None and inter.example() is not None else None
@@ -415,7 +474,7 @@ class TableCheck:
             self.add('PARSE-TABLE', q, r.name, 'a panic is reachable', w)
             return nextq
         # flush discipline: a pending key and its values are inserted when the next key, a yield or the end arrives - and only while a key is pending
-        pending = q in self.spec.get('pending', ())
+        pending = self.is_pending(qfull)
         if pending:
             if (kw.get('flush') or end[0] == 'ok') and not flushes and end[0] != 'err':
                 self.add('PARSE-FLUSH', q, r.name, 'the pending key and its values are not stored when %s arrives (a keyword/field is dropped)' % r.name, w, sp)
@@ -493,7 +552,7 @@ class TableCheck:
                     self.add('PARSE-SELFREAD', q, r.name, 'an empty first subtag is rejected: the extension map does not read back its own Display output, which starts with a separator '
                              '("-u-ca-buddhist": Locale::into_parts, the string locale! parses at run time)', w, sp)
                 if end[0] == 'head':
-                    return nextq if nextq else q
+                    return nextq if nextq else qfull
                 return None
             if oc in ('finish', 'default-language'):
                 if oc == 'finish' and end[0] != 'ok':
@@ -524,7 +583,7 @@ class TableCheck:
                 self.add('PARSE-NODROP', q, r.name, 'the result of the %s parser is not stored in its slot' % kw.get('sub', 'nested'), w, sp)
             if oc == 'call' and not kw.get('last') and not self.slot_known_empty(st, kw['slot']):
                 self.add('PARSE-NOCLOBBER', q, r.name, 'a repeated %s overwrites the extension parsed earlier (no check that none was parsed yet)' % r.name, w, sp)
-            return nextq if nextq else q
+            return nextq if nextq else qfull
         return nextq
 
     def noclobber_reject(self, st, kw):
